@@ -72,7 +72,7 @@ COND_BIAS = [14, 14, 14, 14, 14, 14, 0, 1, 2, 3, 4, 5, 6, 7, 8, 9, 10, 11, 12, 1
 ARM_LS = [('ls_imm', 'cccc010pubwlnnnnttttiiiiiiiiiiii'), ('ls_reg', 'cccc011pubwlnnnnttttiiiiiyy0mmmm'),
           ('xls_imm', 'cccc000pu1wlnnnnttttiiii1yy1iiii'), ('xls_reg', 'cccc000pu0wlnnnntttt00001yy1mmmm'),
           ('ldrex', 'cccc00011zz1nnnntttt111110011111'), ('strex', 'cccc00011zz0nnnndddd11111001tttt')]
-ARM_LSM = [('lsm', 'cccc100pu0wlnnnnrrrrrrrrrrrrrrrr')]
+ARM_LSM = [('lsm', 'cccc100pu0wlnnnnrrrrrrrrrrrrrrrr'), ('lsm_s', 'cccc100pu1wlnnnnrrrrrrrrrrrrrrrr')]
 T32_LS = [('t32_ls_i12', '1111100s1zzlnnnnttttiiiiiiiiiiii'), ('t32_ls_i8', '1111100s0zzlnnnntttt1puwiiiiiiii'),
           ('t32_ls_reg', '1111100s0zzlnnnntttt000000iimmmm'), ('t32_lsd', '1110100pu1wlnnnnttttddddiiiiiiii'),
           ('t32_tb', '111010001101nnnn11110000000hmmmm'),
